@@ -1546,7 +1546,7 @@ def run(ctx: Ctx) -> None:
     work += [('gates', (idxs[i::k], ctx.seed)) for i in range(k)]
     work += [('foreach-ship', fc[i:i + 4]) for i in range(0, len(fc), 4)]
     work += [('workflows', (t, bound)) for t in terms]
-    dl = ctx.t0 + (500 if thorough else 45)
+    dl = ctx.t0 + (500 if thorough else 40)
     classes: set = set()
     skipped: list = []
     for part, r in pmap(misc_worker, work, procs=ctx.procs, deadline=dl):
@@ -1576,7 +1576,7 @@ def run(ctx: Ctx) -> None:
              wall_s=round(ctx.elapsed(), 1))
 
     # ---- circuits (largest: last, inside what is left of the budget)
-    deadline = ctx.t0 + (1700 if thorough else 85)
+    deadline = ctx.t0 + (1700 if thorough else 75)
     run_circuits(ctx, viols, deadline)
 
     ctx.assumptions.extend([
